@@ -12,9 +12,9 @@ import tlc
 
 REGEX = r'^https://sp\.verif\.example/acs/'
 OUTSTANDING = {'id1': '/came/from/1', 'id2': '/came/from/2'}
-AUD = {'me': env.SP, 'other': env.SP2, 'other2': 'urn:verif:sp3'}
+AUD = {'me': env.SP, 'other': env.SP2, 'other2': 'urn:verif:sp3', 'meSlash': env.SP + '/', 'meUpper': env.SP.upper()}
 RESTR = {'none': [], 'me': [['me']], 'other': [['other']], 'me_me': [['me'], ['me']], 'me_other': [['me'], ['other']],
-         'other_other': [['other'], ['other2']], 'meAndOther': [['other', 'me']]}
+         'other_other': [['other'], ['other2']], 'meAndOther': [['other', 'me']], 'meSlash': [['meSlash']], 'meUpper': [['meUpper']]}
 
 
 SP_ACS_ART = 'https://sp.verif.example/acs/artifact'
@@ -39,6 +39,11 @@ def build(scn):
         a['conf'] = [second, a['conf'][0]] if scn['conf2first'] else [a['conf'][0], second]
     if scn.get('mtype') == 'attribute':
         a['authn'] = None
+    w = scn.get('window', 'both')
+    if w in ('none', 'nooaOnly'):
+        a['cond']['nb'] = None
+    if w in ('none', 'nbOnly'):
+        a['cond']['nooa'] = None
     a_xml = sb.assertion(a)
     body = '<saml:EncryptedAssertion>%s</saml:EncryptedAssertion>' % a_xml if scn['enc'] else a_xml
     r = spc.default_response(irt=None if scn['irt'] == 'none' else scn['irt'], destination=u[scn['dest']])
@@ -108,7 +113,7 @@ def main():
         keep = []
         for c in cases:
             s = c['scn']
-            special = s['endpoint'] != 'configured' or s['binding'] == 'artifact' or s['conf2'] != 'absent' or s['sameFrom'] or s['mtype'] == 'attribute'
+            special = s['endpoint'] != 'configured' or s['binding'] == 'artifact' or s['conf2'] != 'absent' or s['sameFrom'] or s['mtype'] == 'attribute' or s['window'] != 'both' or (s['aud'] in ('meSlash', 'meUpper') and not s['enc'] and s['binding'] == 'post')
             core = not s['enc'] and s['binding'] == 'post'
             decided = c['mustAccept'] or c['mustReject']
             # the small special slices entirely, half of the decided plain/POST product, a seeded sample of the rest
